@@ -116,7 +116,10 @@ class CoreCheck(LineCheck):
 
     # ---- verdict plumbing ----
     def my_code(self, c):
-        return any(lo <= c < hi for lo, hi in self.codes) or c in self.extra_codes
+        # 1801 = the implementation left the model's memory discipline (sanitizer report / crash of the child running
+        # the scenario): a concrete failing input for whichever property's workload reached it (the model never does:
+        # CoreCodes2.core_code_1801)
+        return any(lo <= c < hi for lo, hi in self.codes) or c in self.extra_codes or c == 1801
 
     def correspond(self, ctx, cases):
         st = LineCheck.correspond(self, ctx, cases)
@@ -326,6 +329,20 @@ class C03(CoreCheck):
                 secs[3] = "Hf1:fu0 fu1 fr0 fr1 ks0=%s ks1=%s/ks0= ks1=/-" % (c2, c2) if b1 == "i" else secs[3]
             secs.append("Ht0:-")
             cases.append(";".join(secs))
+        # watchers whose kernel event mask is EMPTY (error band only, or every in/out handler cleared in an earlier
+        # iteration) are unregistered WITHOUT closing the descriptor and the struct is registered again for it (or the
+        # descriptor is reported with HUP/ERR afterwards): the kernel's interest set must have dropped the entry
+        for _ in range(max(12, n // 10)):
+            be = rng.choice(self.backends)
+            first = rng.choice(["fh0e3", "fh0e3", "fh0i1 fh0e3", "fh0o2 fh0e3"])
+            clear = {"fh0e3": "-", "fh0i1 fh0e3": "fh0i-", "fh0o2 fh0e3": "fh0o-"}[first]
+            again = rng.choice(["fh0i1 fr0 ks0=i", "fh0o2 fr0 ks0=o", "fh0i1 fh0e- fr0 ks0=i", "fr0 ks0=he", "fh0e- fh0o2 fr0 ks0=o"])
+            secs = ["B" + be, "M%d" % rng.choice([8, 12]),
+                    "S %s fr0 fh1i1 fr1 tr0+1000000 tr1+3000000 tr2+5000000 tr3+7000000" % first,
+                    "Hf1:ks1=", "Ht0:%s ks1=i" % clear, "Ht1:fu0%s" % rng.choice(["", " ks0=he", " ks1=i", " fx0 ks0=he", " fx0 ks0=he"]),
+                    "Ht2:%s" % again, "Ht3:ks0= fu0" + rng.choice(["", " fr0", " fh0i1 fr0 ks0=i"]),
+                    "Hf3:ks0="]
+            cases.append(";".join(secs))
         return cases
 
 
@@ -389,10 +406,30 @@ class C06(CoreCheck):
     def nontrivial(self, case, mo):
         return self.count(mo, r"\| Ck") >= 2
 
+    def gen_cases(self, ctx, rng, n):
+        cases = CoreCheck.gen_cases(self, ctx, rng, n)
+        # tasks pending at a wait while the repeated-deadline kernel timer is ARMED (the same far deadline was seen on
+        # five consecutive waits): the zero timeout asked for by iv_main must still reach the kernel.  A task that
+        # re-registers itself (deferred past the next poll) from the 6th..8th wake-up, with the waking descriptor
+        # staying ready or going quiet at that moment
+        for _ in range(max(12, n // 10)):
+            be = rng.choice(self.backends)
+            d = rng.choice([50000000, 1000000000, 5000000])
+            quiet = rng.choice(["", "ks0= ", "ks0= "])
+            at = rng.choice([5, 6, 7])
+            hf = ["-"] * at + ["%skr0" % quiet, rng.choice(["-", "ks0=", "kr1"]), "ks0= fu0"]
+            secs = ["B" + be, "M%d" % rng.choice([16, 24]), "S fh0i0 fr0 ks0=i tr0+%d" % d,
+                    "Hf0:" + "/".join(hf), "Hk0:" + rng.choice(["kr0/kr0/-", "kr0/-", "kr1/-", "kr0 kr1/kr0/-"]),
+                    "Hk1:" + rng.choice(["-", "kr0/-", "kr1/-"]), "Ht0:-"]
+            cases.append(";".join(secs))
+        return cases
+
 
 class C07(CoreCheck):
     pid = "C07"
-    codes = [(700, 800), (1101, 1104)]
+    # 403-405 / 602 / 604 / 901-902: "blocks in the kernel only when nothing is due" for timers, tasks and raw events
+    # (theorem C07_blocks_only_when_nothing_due)
+    codes = [(700, 800), (1101, 1104), (403, 406), (602, 603), (604, 605), (901, 903)]
     profiles = ["quit", "quit", "mixed", "event"]
     with_faults = 0.35
     rule = ("programs over all object kinds with iv_quit anywhere, failing iv_fd_register_try (closed descriptor) and failing "
